@@ -492,6 +492,8 @@ class Extractor:
                 return True
             if x[0] == "elem":
                 return True
+            if x[0] == "model" and x[1] == "option-ref-eq":
+                return True
             if x[0] == "proj" and isinstance(x[1], tuple) and x[1][0] == "call":
                 return True
             if x[0] == "ld" and x[2] == "entry":
@@ -750,12 +752,13 @@ def emitted(env, key, entry=None, sink_pred=None, follow=None):
     return Extractor(env, key, "w", entry, sink_pred, follow=follow).run()
 
 
-def reads(env, key, entry=None, follow=None, all_local_calls=False, takes=False, stores=False, ext=False, inline=False, inline_pred=None):
+def reads(env, key, entry=None, follow=None, all_local_calls=False, takes=False, stores=False, ext=False, inline=False, inline_pred=None, call_probe=None):
     ex = Extractor(env, key, "r", entry, follow=follow)
     ex.all_local_calls = all_local_calls
     ex.track_takes = takes
     ex.track_stores = stores
     ex.track_ext = ext
+    ex.call_probe = call_probe
     if inline:
         # helpers that no rule names are followed in place; the call token of a followed helper is dropped from the paths
         ex.inline = True
